@@ -11,6 +11,7 @@
 #include "nmtools/array/index/atleast_nd.hpp"
 #include "nmtools/array/index/flatten.hpp"
 #include "nmtools/array/index/moveaxis.hpp"
+#include "nmtools/array/index/flip.hpp"
 #include "nmtools/array/view/swapaxes.hpp"   // index::swapaxes_to_transpose lives in the view header
 
 namespace nm = nmtools;
@@ -25,6 +26,7 @@ using cnt_t      = nmtools_tuple<int,nm_size_t>;       // count_negative_reshape
 using sv9_t      = nmtools::utl::static_vector<nm_size_t,9>;            // shape_expand_dims(sv_t, int)
 using hyb_t      = nmtools::array::hybrid_ndarray<nm_size_t,8,1>;       // shape_squeeze(sv_t), shape_atleast_nd(sv_t, ct<N>)
 using arr1_t     = nmtools_array<nm_size_t,1>;                          // shape_flatten(sv_t, None)
+using slices3_t  = nmtools_array<nmtools_tuple<nm::none_t,nm::none_t,int>,3>;          // flip_slices(ct<3>, axis)
 
 // ---- normalize_axis (scalar axis / axis list), ndim as the views pass it (len(shape): size_t)
 auto verif_normalize_axis(int axis, nm_size_t ndim) { return ix::normalize_axis(axis,ndim); }
@@ -62,3 +64,9 @@ auto verif_shape_flatten(sv_t shape) { return ix::shape_flatten(shape,nm::None);
 // swapaxes: view::swapaxes passes dim<true>(array); a bounded-dim array gives a clipped integer (run-time dim would yield std::vector)
 auto verif_swapaxes_to_transpose(nm_size_t dim, int axis1, int axis2) { return ix::swapaxes_to_transpose(nm::clipped_size_t<8>(dim),axis1,axis2); }
 auto verif_moveaxis_to_transpose(sv_t shape, int source, int destination) { return ix::moveaxis_to_transpose(shape,source,destination); }
+
+// ---- flip: view::flip(a,axis) = apply_slice(a, flip_slices(dim<true>(a), axis)); slice (None,None,-1) on the flipped axes.
+//      dim as a compile-time constant (fixed-dim arrays; a run-time dim yields std::vector, a clipped dim does not compile: flip.hpp:74)
+auto verif_flip_slices3(int axis) { return ix::flip_slices(nm::meta::ct_v<3>,axis); }
+auto verif_flip_slices3_axes(svi_t axes) { return ix::flip_slices(nm::meta::ct_v<3>,axes); }
+auto verif_flip_slices3_none() { return ix::flip_slices(nm::meta::ct_v<3>,nm::None); }
